@@ -219,7 +219,7 @@ class T:
                 else:
                     ok = False
                     self._fail(lab, key, 'value', f'got {fa!r} want {fb!r}', None)
-        if len(self.samples) < 3:
+        if len(self.samples) < 3 and g and w:
             self.samples.append(f'{label}: {_short(g[0])} == {_short(w[0])}')
         return ok
 
